@@ -101,8 +101,8 @@ LAYERS = {
               {"HLen": 2, "MaxFrames": 2, "MaxUnits": 2, "Bufs": S([1, 2])},
               {"HLen": 2, "MaxFrames": 3, "MaxUnits": 2, "Bufs": S([1, 2])}),
     "lazy": ("C02_MCLazyMS", "C02_MCLazyMS.cfg",
-             {"MaxSent": 2, "MaxWrite": 2, "Bufs": S([1, 2])},
-             {"MaxSent": 3, "MaxWrite": 2, "Bufs": S([1, 2])}),
+             {"MaxSent": 2, "MaxWrite": 2, "Bufs": S([1, 2]), "Delays": '{"neg-", "neg+", "1h"}'},
+             {"MaxSent": 3, "MaxWrite": 2, "Bufs": S([1, 2]), "Delays": '{"1s", "neg-", "neg+", "1min", "1h"}'}),
 }
 # second mux replay instance (thorough): every channel may be half-closed
 MUX_B = {"Streams": S([1, 2]), "MaxSent": 2, "MaxWrite": 2, "MaxMsg": 1, "MaxTotal": 2, "MaxClose": 4, "Bufs": S([1, 2]),
@@ -281,6 +281,10 @@ def _edge_stats(g):
             inc("start-boundary")
         if n == "finish" and op.get("carry", 0) > 0:
             inc("start-carry")
+        if n == "wait" and op.get("afterclose"):
+            inc("wait-after-closewrite")
+        if n == "wait" and op.get("readpending"):
+            inc("wait-read-pending")
         if n == "cut":
             inc("cut:" + op["kind"])
             if op.get("open", 0) >= 2:
@@ -323,7 +327,7 @@ LAYER_NEED = {
     "muxg": ["op:open", "op:write", "op:read", "glitch:dataerr", "glitch:temperr", "glitch:shortwrite"],
     "muxc": ["op:open", "op:write", "op:read", "cut:cuteof", "cut:cutrst", "cut-two-streams-open", "term:err", "eof"],
     "start": ["op:write", "op:finish", "op:read", "start-coalesced", "start-boundary", "start-carry"],
-    "lazy": ["lazy-flush-by:cwrite", "lazy-flush-by:creadbegin", "lazy-flush-by:cclosewrite", "op:swrite", "op:sread",
+    "lazy": ["wait-after-closewrite", "wait-read-pending", "lazy-flush-by:cwrite", "lazy-flush-by:creadbegin", "lazy-flush-by:cclosewrite", "op:swrite", "op:sread",
              "read-after-own-closewrite", "eof"],
 }
 
